@@ -402,7 +402,7 @@ package router
 
 //@ pred regTable(d *dealer, match string) = match == wamp.MatchPrefix ? d.pfxProcRegMap : (match == wamp.MatchWildcard ? d.wcProcRegMap : d.procRegMap)
 
-//@ pred calleeOf(r *registration, c *wamp.Session) = exists k mathint :: 0 <= k && k < len(r.callees) && r.callees[k] == c
+//@ opaque pred calleeOf(r *registration, c *wamp.Session) = exists k mathint :: 0 <= k && k < len(r.callees) && r.callees[k] == c
 
 //@ pred dealerRegs(d *dealer) = forall i wamp.ID :: i in d.registrations ==> (allocated(d.registrations[i]) && d.registrations[i].id == i && len(d.registrations[i].callees) >= 1 && d.registrations[i].nextCallee >= 0 && d.registrations[i].procedure in regTable(d, d.registrations[i].match) && regTable(d, d.registrations[i].match)[d.registrations[i].procedure] == d.registrations[i])
 
@@ -410,7 +410,7 @@ package router
 //@ pred dealerPfx(d *dealer) = forall p wamp.URI :: p in d.pfxProcRegMap ==> (d.pfxProcRegMap[p] != nil && d.pfxProcRegMap[p].procedure == p && d.pfxProcRegMap[p].match == wamp.MatchPrefix && d.pfxProcRegMap[p].id in d.registrations && d.registrations[d.pfxProcRegMap[p].id] == d.pfxProcRegMap[p])
 //@ pred dealerWc(d *dealer) = forall p wamp.URI :: p in d.wcProcRegMap ==> (d.wcProcRegMap[p] != nil && d.wcProcRegMap[p].procedure == p && d.wcProcRegMap[p].match == wamp.MatchWildcard && d.wcProcRegMap[p].id in d.registrations && d.registrations[d.wcProcRegMap[p].id] == d.wcProcRegMap[p])
 
-//@ pred dealerCallees(d *dealer) = forall i wamp.ID, k mathint :: i in d.registrations && 0 <= k && k < len(d.registrations[i].callees) ==> allocated(d.registrations[i].callees[k]) && !isnil(d.registrations[i].callees[k].Peer)
+//@ pred dealerCallees(d *dealer) = forall i wamp.ID, k mathint :: i in d.registrations && 0 <= k && k < len(d.registrations[i].callees) ==> d.registrations[i].callees[k] != nil && !isnil(d.registrations[i].callees[k].Peer)
 
 //@ pred dealerNoDup(d *dealer) = forall i wamp.ID, k1 mathint, k2 mathint :: i in d.registrations && 0 <= k1 && k1 < k2 && k2 < len(d.registrations[i].callees) ==> d.registrations[i].callees[k1] != d.registrations[i].callees[k2]
 
@@ -418,7 +418,10 @@ package router
 
 //@ pred dealerOwn(d *dealer) = (forall i wamp.ID, j wamp.ID :: i in d.registrations && j in d.registrations && i != j ==> backing(d.registrations[i].callees) != backing(d.registrations[j].callees)) && (forall i wamp.ID :: i in d.registrations ==> backing(d.registrations[i].callees) > 0 && backing(d.registrations[i].callees) < allocLimit()) && (forall c1 *wamp.Session, c2 *wamp.Session :: c1 in d.calleeRegIDSet && c2 in d.calleeRegIDSet && c1 != c2 ==> d.calleeRegIDSet[c1] != d.calleeRegIDSet[c2])
 
-//@ pred dealerIndex(d *dealer) = (forall c *wamp.Session, i wamp.ID :: (c in d.calleeRegIDSet && i in d.calleeRegIDSet[c]) <==> (i in d.registrations && calleeOf(d.registrations[i], c))) && (forall c *wamp.Session :: c in d.calleeRegIDSet ==> allocated(d.calleeRegIDSet[c]))
+//@ pred dealerIndexFwd(d *dealer) = forall c *wamp.Session, i wamp.ID :: c in d.calleeRegIDSet && i in d.calleeRegIDSet[c] ==> i in d.registrations && calleeOf(d.registrations[i], c)
+//@ pred dealerIndexBwd(d *dealer) = forall i wamp.ID, k mathint :: i in d.registrations && 0 <= k && k < len(d.registrations[i].callees) ==> calleeOf(d.registrations[i], d.registrations[i].callees[k]) && d.registrations[i].callees[k] in d.calleeRegIDSet && i in d.calleeRegIDSet[d.registrations[i].callees[k]]
+//@ pred dealerIndexAlloc(d *dealer) = forall c *wamp.Session :: c in d.calleeRegIDSet ==> allocated(d.calleeRegIDSet[c])
+//@ pred dealerIndex(d *dealer) = dealerIndexFwd(d) && dealerIndexBwd(d) && dealerIndexAlloc(d)
 
 //@ pred dealerInv(d *dealer) = dealerNN(d) && dealerRegs(d) && dealerExact(d) && dealerPfx(d) && dealerWc(d) && dealerCallees(d) && dealerNoDup(d) && dealerPolicy(d) && dealerOwn(d)
 
@@ -447,12 +450,13 @@ package router
 //@   ensures [inv-own] dealerOwn(d)
 //@   ensures [error-if-not-callee] !old(isCallee(d, callee, regID)) ==> !isnil(result1)
 //@   ensures [ok-if-callee] old(isCallee(d, callee, regID)) ==> isnil(result1)
-//@   ensures [shape] old(isCallee(d, callee, regID)) && !result0 ==> (exists p mathint :: 0 <= p && p < old(len(d.registrations[regID].callees)) && old(d.registrations[regID].callees[p]) == callee && len(old(d.registrations[regID]).callees) == old(len(d.registrations[regID].callees)) - 1 && (forall k mathint :: 0 <= k && k < p ==> old(d.registrations[regID]).callees[k] == old(d.registrations[regID].callees[k])) && (forall k mathint :: p < k && k < old(len(d.registrations[regID].callees)) ==> old(d.registrations[regID]).callees[k - 1] == old(d.registrations[regID].callees[k])))
+//@   ensures [shape] old(isCallee(d, callee, regID)) && !result0 ==> (exists p mathint :: 0 <= p && p < old(len(d.registrations[regID].callees)) && old(d.registrations[regID].callees[p]) == callee && len(old(d.registrations[regID]).callees) == old(len(d.registrations[regID].callees)) - 1 && (forall k mathint :: 0 <= k && k < p ==> old(d.registrations[regID]).callees[k] == old(d.registrations[regID].callees[k])) && (forall k mathint :: p < k && k < old(len(d.registrations[regID].callees)) ==> old(d.registrations[regID]).callees[k - 1] == old(d.registrations[regID].callees[k])) && (forall k mathint :: p <= k && k + 1 < old(len(d.registrations[regID].callees)) ==> old(d.registrations[regID]).callees[k] == old(d.registrations[regID].callees[k + 1])))
 //@   ensures [not-callee-no-change] !old(isCallee(d, callee, regID)) ==> !result0 && (forall i wamp.ID, c *wamp.Session :: isCallee(d, c, i) <==> old(isCallee(d, c, i)))
 //@   ensures [removed] !isCallee(d, callee, regID)
 //@   ensures [deleted-iff-last] result0 <==> (old(isCallee(d, callee, regID)) && old(len(d.registrations[regID].callees)) == 1)
 //@   ensures [deleted-gone] result0 ==> !(regID in d.registrations)
 //@   ensures [kept] old(regID in d.registrations) && !result0 ==> regID in d.registrations && d.registrations[regID] == old(d.registrations[regID])
+//@   ensures [other-regs-same] forall i wamp.ID :: i != regID ==> ((i in d.registrations) == old(i in d.registrations)) && d.registrations[i] == old(d.registrations[i]) && (old(i in d.registrations) ==> len(d.registrations[i].callees) == old(len(d.registrations[i].callees)) && backing(d.registrations[i].callees) == old(backing(d.registrations[i].callees)) && (forall k mathint :: 0 <= k && k < len(d.registrations[i].callees) ==> d.registrations[i].callees[k] == old(d.registrations[i].callees[k])))
 //@   ensures [other-regs-untouched] forall i wamp.ID, c *wamp.Session :: i != regID ==> (isCallee(d, c, i) <==> old(isCallee(d, c, i)))
 //@   ensures [other-callees-kept] forall c *wamp.Session :: c != callee && old(isCallee(d, c, regID)) ==> isCallee(d, c, regID)
 //@   ensures [no-new-callees] forall c *wamp.Session :: isCallee(d, c, regID) ==> old(isCallee(d, c, regID))
@@ -460,3 +464,68 @@ package router
 //@     invariant [not-yet] forall j mathint :: 0 <= j && j <= rangeindex ==> reg.callees[j] != callee
 //@     invariant [bound] rangeindex < len(reg.callees)
 //@     invariant [not-found] !found
+
+//@ pred regIdsFresh(d *dealer) = d.idGen.next < wamp.MaxID && (forall i wamp.ID :: i in d.registrations ==> i <= d.idGen.next)
+
+//@ pred sharedPolicy(p string) = p == wamp.InvokeFirst || p == wamp.InvokeLast || p == wamp.InvokeRoundRobin || p == wamp.InvokeRandom
+
+//@ pred shareable(r *registration, policy string, callee *wamp.Session) = sharedPolicy(r.policy) && r.policy == policy && !calleeOf(r, callee)
+
+//@ func (d *dealer) syncRegister
+//@   on dealer
+//@   props C03 C05 C18
+//@   requires dealerInv(d) && dealerIndex(d) && regIdsFresh(d)
+//@   requires callee != nil && !isnil(callee.Peer) && msg != nil
+//@   modifies d.idGen.next, map(d.registrations), map(d.procRegMap), map(d.pfxProcRegMap), map(d.wcProcRegMap), map(d.calleeRegIDSet), all map[wamp.ID]struct{}, all registration.callees, all []*wamp.Session, ghost sendcount
+//@   ensures [new] !old(msg.Procedure in regTable(d, match)) ==> msg.Procedure in regTable(d, match) && fresh(regTable(d, match)[msg.Procedure]) && regTable(d, match)[msg.Procedure].id == old(d.idGen.next) + 1 && regTable(d, match)[msg.Procedure].policy == invokePolicy && regTable(d, match)[msg.Procedure].match == match && regTable(d, match)[msg.Procedure].disclose == disclose && regTable(d, match)[msg.Procedure].forwardTimeout == forwardTimeout && len(regTable(d, match)[msg.Procedure].callees) == 1 && regTable(d, match)[msg.Procedure].callees[0] == callee
+//@   ensures [join] old(msg.Procedure in regTable(d, match)) && old(shareable(regTable(d, match)[msg.Procedure], invokePolicy, callee)) ==> regTable(d, match)[msg.Procedure] == old(regTable(d, match)[msg.Procedure]) && isCallee(d, callee, regTable(d, match)[msg.Procedure].id) && len(regTable(d, match)[msg.Procedure].callees) == old(len(regTable(d, match)[msg.Procedure].callees)) + 1
+//@   ensures [join-shape] old(msg.Procedure in regTable(d, match)) && old(shareable(regTable(d, match)[msg.Procedure], invokePolicy, callee)) ==> (forall k mathint :: 0 <= k && k < old(len(regTable(d, match)[msg.Procedure].callees)) ==> regTable(d, match)[msg.Procedure].callees[k] == old(regTable(d, match)[msg.Procedure].callees[k])) && regTable(d, match)[msg.Procedure].callees[old(len(regTable(d, match)[msg.Procedure].callees))] == callee
+//@   ensures [other-regs-same] forall i wamp.ID :: old(i in d.registrations) && (!old(msg.Procedure in regTable(d, match)) || i != old(regTable(d, match)[msg.Procedure].id)) ==> i in d.registrations && d.registrations[i] == old(d.registrations[i]) && len(d.registrations[i].callees) == old(len(d.registrations[i].callees)) && backing(d.registrations[i].callees) == old(backing(d.registrations[i].callees)) && (forall k mathint :: 0 <= k && k < len(d.registrations[i].callees) ==> d.registrations[i].callees[k] == old(d.registrations[i].callees[k]))
+//@   ensures [inv-nn] dealerNN(d)
+//@   ensures [inv-regs] dealerRegs(d)
+//@   ensures [inv-exact] dealerExact(d)
+//@   ensures [inv-pfx] dealerPfx(d)
+//@   ensures [inv-wc] dealerWc(d)
+//@   ensures [inv-callees] dealerCallees(d)
+//@   ensures [inv-nodup] dealerNoDup(d)
+//@   ensures [inv-policy] dealerPolicy(d)
+//@   ensures [inv-own] dealerOwn(d)
+//@   ensures [inv-index-fwd] dealerIndexFwd(d)
+//@   ensures [inv-index-bwd] dealerIndexBwd(d)
+//@   ensures [inv-index-alloc] dealerIndexAlloc(d)
+//@   ensures [inv-ids] forall i wamp.ID :: i in d.registrations ==> i <= d.idGen.next
+//@   ensures [refused-unchanged] old(msg.Procedure in regTable(d, match)) && !old(shareable(regTable(d, match)[msg.Procedure], invokePolicy, callee)) ==> (forall i wamp.ID, c *wamp.Session :: isCallee(d, c, i) <==> old(isCallee(d, c, i)))
+//@   ensures [no-new-members] forall i wamp.ID, k mathint :: i in d.registrations && 0 <= k && k < len(d.registrations[i].callees) ==> d.registrations[i].callees[k] == callee || old(isCallee(d, d.registrations[i].callees[k], i))
+//@   callsite trySend : [to-requester] arg1 == callee
+//@   callsite trySend : [refused-error] old(msg.Procedure in regTable(d, match)) && !old(shareable(regTable(d, match)[msg.Procedure], invokePolicy, callee)) ==> is(arg2, *wamp.Error) && arg2.(*wamp.Error).Error == wamp.ErrProcedureAlreadyExists && arg2.(*wamp.Error).Request == msg.Request && arg2.(*wamp.Error).Type == wamp.REGISTER
+//@   callsite trySend : [registered] !(old(msg.Procedure in regTable(d, match)) && !old(shareable(regTable(d, match)[msg.Procedure], invokePolicy, callee))) ==> is(arg2, *wamp.Registered) && arg2.(*wamp.Registered).Request == msg.Request && msg.Procedure in regTable(d, match) && arg2.(*wamp.Registered).Registration == regTable(d, match)[msg.Procedure].id
+
+//@ func (d *dealer) syncUnregister
+//@   on dealer
+//@   props C03 C05 C18
+//@   requires dealerInv(d) && dealerIndex(d)
+//@   requires callee != nil && !isnil(callee.Peer) && msg != nil
+//@   modifies map(d.registrations), map(d.procRegMap), map(d.pfxProcRegMap), map(d.wcProcRegMap), map(d.calleeRegIDSet), all map[wamp.ID]struct{}, all registration.callees, all []*wamp.Session, ghost sendcount
+//@   ensures [inv-nn] dealerNN(d)
+//@   ensures [inv-regs] dealerRegs(d)
+//@   ensures [inv-exact] dealerExact(d)
+//@   ensures [inv-pfx] dealerPfx(d)
+//@   ensures [inv-wc] dealerWc(d)
+//@   ensures [inv-callees] dealerCallees(d)
+//@   ensures [inv-nodup] dealerNoDup(d)
+//@   ensures [inv-policy] dealerPolicy(d)
+//@   ensures [inv-own] dealerOwn(d)
+//@   ensures [sets-others] forall c *wamp.Session, i wamp.ID :: c != callee ==> ((c in d.calleeRegIDSet && i in d.calleeRegIDSet[c]) <==> old(c in d.calleeRegIDSet && i in d.calleeRegIDSet[c]))
+//@   ensures [sets-own] forall i wamp.ID :: i != msg.Registration ==> ((callee in d.calleeRegIDSet && i in d.calleeRegIDSet[callee]) <==> old(callee in d.calleeRegIDSet && i in d.calleeRegIDSet[callee]))
+//@   ensures [sets-removed] !(callee in d.calleeRegIDSet && msg.Registration in d.calleeRegIDSet[callee])
+//@   ensures [inv-index-fwd] dealerIndexFwd(d)
+//@   ensures [inv-index-bwd] dealerIndexBwd(d)
+//@   ensures [inv-index-alloc] dealerIndexAlloc(d)
+//@   ensures [removed] !isCallee(d, callee, msg.Registration)
+//@   ensures [other-regs-untouched] forall i wamp.ID, c *wamp.Session :: i != msg.Registration ==> (isCallee(d, c, i) <==> old(isCallee(d, c, i)))
+//@   ensures [other-callees-kept] forall c *wamp.Session :: c != callee && old(isCallee(d, c, msg.Registration)) ==> isCallee(d, c, msg.Registration)
+//@   ensures [no-new-callees] forall c *wamp.Session :: isCallee(d, c, msg.Registration) ==> old(isCallee(d, c, msg.Registration))
+//@   ensures [no-meta-if-refused] !old(isCallee(d, callee, msg.Registration)) ==> len(result) == 0
+//@   callsite trySend : [to-requester] arg1 == callee
+//@   callsite trySend : [non-callee-error] !old(isCallee(d, callee, msg.Registration)) ==> is(arg2, *wamp.Error) && arg2.(*wamp.Error).Error == wamp.ErrNoSuchRegistration && arg2.(*wamp.Error).Request == msg.Request && arg2.(*wamp.Error).Type == wamp.UNREGISTER
+//@   callsite trySend : [unregistered] old(isCallee(d, callee, msg.Registration)) ==> is(arg2, *wamp.Unregistered) && arg2.(*wamp.Unregistered).Request == msg.Request
